@@ -59,7 +59,9 @@ func TestC18States(t *testing.T) {
 			}
 			col.Eval()
 			if m := checkPartition(expected, set.SymbolClasses.List()); m != "" {
-				t.Fatalf("grammar:\n%s\nlexer state S%d expects the literals/ranges %v, its classes are %v: %s", src, si, expected, set.SymbolClasses.List(), m)
+				msg := fmt.Sprintf("grammar:\n%s\nlexer state S%d expects the literals/ranges %v, its classes are %v: %s", src, si, expected, set.SymbolClasses.List(), m)
+				recordGrammarViolation(col, "C18", "states", src, msg)
+				t.Fatalf("%s", msg)
 			}
 			if len(set.SymbolClasses.List()) >= 3 {
 				col.NonTrivial(ev.Hash(src, fmt.Sprint(si)), func() any {
@@ -68,6 +70,31 @@ func TestC18States(t *testing.T) {
 			}
 		}
 	}
+}
+
+// checkStatesOf validates every lexer state of one grammar text (used by replays).
+func checkStatesOf(src string) string {
+	sets, msg := lexerStates(src)
+	if msg != "" {
+		return ""
+	}
+	for si, set := range sets.List() {
+		var expected []iv
+		for _, it := range set.Items {
+			switch s := it.ExpectedSymbol().(type) {
+			case *ast.LexCharLit:
+				expected = append(expected, iv{s.Val, s.Val})
+			case *ast.LexCharRange:
+				if s.From.Val <= s.To.Val {
+					expected = append(expected, iv{s.From.Val, s.To.Val})
+				}
+			}
+		}
+		if m := checkPartition(expected, set.SymbolClasses.List()); m != "" {
+			return fmt.Sprintf("grammar:\n%s\nlexer state S%d: %s", src, si, m)
+		}
+	}
+	return ""
 }
 
 // lexerStates replicates main.go up to the lexer item sets.
